@@ -30,7 +30,7 @@ SEval(e, env) ==
                         IF e.f.op.t = "Add" THEN x + y ELSE IF e.f.op.t = "Sub" THEN x - y ELSE x * y
     [] e.t = "UnaryOp" -> IF e.f.op.t = "Not" THEN 1 - Truth(SEval(e.f.operand, env)) ELSE 0 - SEval(e.f.operand, env)
     [] e.t = "Compare" -> LET x == SEval(e.f.left, env) y == SEval(e.f.comparators.items[1], env) o == e.f.ops.items[1].t IN
-                          IF (o = "Gt" /\ x > y) \/ (o = "GtE" /\ x >= y) \/ (o = "Lt" /\ x < y) \/ (o = "Eq" /\ x = y) THEN 1 ELSE 0
+                          IF (o = "Gt" /\ x > y) \/ (o = "GtE" /\ x >= y) \/ (o = "Lt" /\ x < y) \/ (o = "Eq" /\ x = y) \/ (o = "LtE" /\ x <= y) \/ (o = "NotEq" /\ x # y) THEN 1 ELSE 0
     [] e.t = "BoolOp" -> LET vs == [i \in 1..Len(e.f.values.items) |-> SEval(e.f.values.items[i], env)] IN
                          IF e.f.op.t = "And" THEN FoldS(LAMBDA x, y : IF x # 0 THEN y ELSE x, vs[1], vs, 2)
                          ELSE FoldS(LAMBDA x, y : IF x # 0 THEN x ELSE y, vs[1], vs, 2)
@@ -100,7 +100,7 @@ AEval(e, env) ==
                         IF e.f.op.t = "Add" THEN Lift2(LAMBDA p, q : p + q, x, y)
                         ELSE IF e.f.op.t = "Sub" THEN Lift2(LAMBDA p, q : p - q, x, y) ELSE Lift2(LAMBDA p, q : p * q, x, y)
     [] e.t = "Compare" -> LET x == AEval(e.f.left, env) y == AEval(e.f.comparators.items[1], env) o == e.f.ops.items[1].t IN
-                          Lift2(LAMBDA p, q : IF (o = "Gt" /\ p > q) \/ (o = "GtE" /\ p >= q) \/ (o = "Lt" /\ p < q) \/ (o = "Eq" /\ p = q) THEN 1 ELSE 0, x, y)
+                          Lift2(LAMBDA p, q : IF (o = "Gt" /\ p > q) \/ (o = "GtE" /\ p >= q) \/ (o = "Lt" /\ p < q) \/ (o = "Eq" /\ p = q) \/ (o = "LtE" /\ p <= q) \/ (o = "NotEq" /\ p # q) THEN 1 ELSE 0, x, y)
     \* --- untranslated Python constructs (only reachable below a UnaryOp, quirk Q1)
     [] e.t = "UnaryOp" -> LET x == AEval(e.f.operand, env) IN
                           IF e.f.op.t = "Not" THEN (IF PyTruthOK(x) THEN Sc(1 - Truth(x.v)) ELSE CallErr)
